@@ -705,7 +705,12 @@ class Runner:
                     self.known_seen.setdefault(sh, replay)
                 self.rep.count("known." + "+".join(sorted(hit)))
                 return True
-            replay["why"] = "implementation = code variant, and both deviate from the Spec (switch-free machine) on this request; no listed finding has this shape"
+            acc = step.get("accesses", ".")
+            other = [a for a in acc.split(",") if a != "." and a.split(":")[1] != a.split(":")[2]]
+            replay["why"] = ("%s: the implementation does what the code variant does and both deviate from the Spec%s; no listed finding has this shape"
+                             % (step["text"], (" — ran on another database than the selected one (path:used:selected) " + ",".join(other)) if other
+                                else " (reply %s / deliveries %s / post-state %s vs prescribed %s / %s)" % (step.get("code"), step.get("served"),
+                                     "same" if step.get("same") else "different", step.get("spec"), step.get("spec_served"))))
             self.new_failures.append(replay)
             return False
         # implementation != code variant: attribute to a database
@@ -1011,8 +1016,14 @@ def main(tier, seed):
         if run.new_failures:
             det = min(run.new_failures, key=lambda d: len(d["ops"]))
             small = shrink(sess, findings, det["ops"], "oracle")
+            n0 = len(det["ops"])
+            if len(small) < n0:
+                rr = Runner(Report(PID, "shrink", 0), sess, findings)
+                rr.run_ops(small)
+                if rr.new_failures:
+                    det = rr.new_failures[0]
             det = dict(det)
-            det["ops_unshrunk"] = len(det["ops"])
+            det["ops_unshrunk"] = n0
             det["ops"] = small
             det["ops_text"] = [op_text(o) for o in small]
             rep.violation("C18 isolation oracle fails on the implementation: %s" % det.get("why", "")[:160],
